@@ -9,6 +9,7 @@ import Driver.C01
 import Driver.C02
 import Driver.C04
 import Driver.C07
+import Driver.C08
 import Driver.C17
 open Lean
 
@@ -22,6 +23,8 @@ def handle (j : Json) : Json :=
   | .ok "C02" => C02.handle j
   | .ok "C04" => C04.handle j
   | .ok "C07" => C07.handle j
+  | .ok "C08" => C08.handle j
+  | .ok "C09" => C08.handle j
   | .ok "C17" => C17.handle j
   | _ => badOp
 
